@@ -146,6 +146,16 @@ func (in *Interp) symBinop(op token.Token, t types.Type, x, y value) (value, boo
 	}
 	b := basicOf(t)
 	if b != nil && b.Info()&types.IsString != 0 {
+		switch op {
+		case token.LSS:
+			return in.strLess(x, y), true
+		case token.GTR:
+			return in.strLess(y, x), true
+		case token.LEQ:
+			return !in.strLess(y, x), true
+		case token.GEQ:
+			return !in.strLess(x, y), true
+		}
 		in.unsupported("string operator %s on symbolic string", op)
 	}
 	if b != nil && b.Kind() == types.Bool || b != nil && b.Kind() == types.UntypedBool {
